@@ -1576,6 +1576,16 @@ def metacall():
                 # System Predicate string
                 return Predicate.System(arg)
 
+        if cls is Predicate and spec:
+            # System Predicate spec, e.g. (-1, 0, 2), as found in the ident
+            # or spec of a sentence. It cannot be constructed, only looked up.
+            coords = spec[0] if len(spec) == 1 else spec
+            try:
+                if coords[0] < 0:
+                    return Predicate.System(tuple(coords))
+            except (TypeError, ValueError, IndexError, KeyError):
+                pass
+
         # Invoked class name.
         clsname = cls.__name__
         
